@@ -36,7 +36,7 @@ def build_b0(spec):
 
 
 def strategy(tier, unit):
-    return st.fixed_dictionaries({"rot": S.rot_specs(1), "cell": S.cells(), "hkl": S.hkls(20),
+    return st.fixed_dictionaries({"rot": S.rot_specs(1), "cell": S.cells(), "hkl": S.hkls(20, big=300),
                                   "mod": st.sampled_from(["tools", "laue"]), "b0": _b0(),
                                   "as": st.sampled_from(["array", "array", "nested-list", "int-if-integral"]),
                                   "prev": st.one_of(st.none(), st.fixed_dictionaries({"rot": S.rot_specs(1), "cell": st.one_of(S.cells(), S.logfl(1e-9, 1e-3)), "as_array": st.booleans()}))})
